@@ -72,6 +72,14 @@ def zclass(xb, f):
 
 
 
+def _approx(q):
+    """float(q) for messages; an exact rational beyond the double range is shown as infinity"""
+    try:
+        return float(q)
+    except OverflowError:
+        return float("inf")
+
+
 def fsum(words):
     """exact sum of the words; None (equal to no value) when a word is not finite"""
     if any(not np.isfinite(w) for w in words):
@@ -259,7 +267,7 @@ def _check_wide(c, f, dtype, sign, man, exp):
             # documented for every x: x == sum(result) + O(smallest subnormal); here with a generous constant
             tot = fsum(mw)
             if abs(tot - exact) > 4 * f.smallest_subnormal:
-                out.append(("wide/multiword/far-from-value", "mpf2multiword(%s, man=%d exp=%d)=%r is %.3g away from x (documented: O(smallest subnormal))" % (f.name, man, exp, mw, float(abs(tot - exact)))))
+                out.append(("wide/multiword/far-from-value", "mpf2multiword(%s, man=%d exp=%d)=%r is %.3g away from x (documented: O(smallest subnormal))" % (f.name, man, exp, mw, _approx(abs(tot - exact)))))
         if mw and bc <= f.p * len(mw):  # documented exactness condition
             tot = fsum(mw)
             if tot != exact:
